@@ -32,6 +32,7 @@ const STAGE_TABLE: &[(&str, bool, &str)] = &[
     ("OutOfPositionMatchEllipsis", true, "ellipsis in the middle of a nested pattern of a later match arm"),
     ("OutOfPositionRootNodeInChain", false, "internal"),
     ("ResultingBytecodeIsTooLarge", false, "size limit (4 GB)"),
+    ("TooManyNestedPatterns", true, "130 patterns in a nested pattern of a later match arm (the parameter-tuple twin is a FunctionPropertyLimit: 130 nested parameters on a later line of a parameter list)"),
     ("TooManyAssignmentTargets", true, "260 targets in an assignment inside an if block"),
     ("TooManyContainerEntries", false, "size limit (2^32 entries)"),
     ("TypeCheckOnLastCatchBlock", true, "typed last catch block"),
@@ -70,7 +71,7 @@ struct StageBreak {
     top_only: bool,
 }
 
-const STAGE_FORMS: usize = 20;
+const STAGE_FORMS: usize = 22;
 
 fn gen_stage_break(rng: &mut Rng, n: usize) -> StageBreak {
     let q = format!("q{n}");
@@ -103,6 +104,8 @@ fn gen_stage_break(rng: &mut Rng, n: usize) -> StageBreak {
             let t = vec![format!("{q}t"); 260].join(", ");
             StageBreak { lines: vec!["if true".into(), format!("  {q} = {a}"), format!("  {t} = 1")], bad_rel: 2, kind: "compile-stage:TooManyAssignmentTargets".into(), top_only: false }
         }
+        19 => StageBreak { lines: vec![format!("match ({a}, 2)"), "  (1, 2) then 0".into(), format!("  ({}) then 1", many("n", 130))], bad_rel: 2, kind: "compile-stage:TooManyNestedPatterns".into(), top_only: false },
+        20 => StageBreak { lines: vec![format!("{q} = |"), "  a,".into(), format!("  ({})", many("n", 130)), "| a".into()], bad_rel: 2, kind: "compile-stage:FunctionPropertyLimit:nested-args".into(), top_only: false },
         18 => StageBreak { lines: vec![format!("{q} = ["), format!("  {a},"), format!("  |{}| 0", many("p", 300)), "]".into()], bad_rel: 2, kind: "compile-stage:FunctionPropertyLimit:args".into(), top_only: false },
         _ => {
             // parser: an arm after the `else` arm of a switch / match; the offending token is the
